@@ -138,6 +138,7 @@ def features(pl, fmt_keywords=FMT_KEYWORDS_FALLBACK):
     visit(pl, ())
 
     # a doc comment is the only thing that separates two top-level pipelines; the formatter drops it
+    # (Coq: FmtStmt.adjacent_mains); the value of a main pipeline is a pipeline with an alias (FmtStmt.aliased_pipeline)
     def stmts_of(m):
         ss = m.get("stmts") if isinstance(m, dict) else None
         if isinstance(ss, list):
@@ -147,7 +148,9 @@ def features(pl, fmt_keywords=FMT_KEYWORDS_FALLBACK):
                     continue
                 vd = st.get("VarDef")
                 is_pipe = isinstance(vd, dict) and vd.get("kind") in ("Main", "Into")
-                if is_pipe and prev_main and st.get("doc_comment") is not None:
+                if is_pipe and isinstance(vd.get("value"), dict) and "Pipeline" in vd["value"] and vd["value"].get("alias") is not None:
+                    fs.add("main-pipeline-alias")
+                if is_pipe and prev_main and st.get("doc_comment") is not None and not st.get("annotations"):
                     fs.add("doc-comment-split")
                 prev_main = isinstance(vd, dict) and vd.get("kind") == "Main"
                 md = st.get("ModuleDef")
